@@ -12,10 +12,10 @@ Inductive mreach (v : variant) (c0 : cfg) : cfg -> Prop :=
 | mr_init : mreach v c0 c0
 | mr_step c ch c' l : mreach v c0 c -> micro v c ch = Some (c', l) -> mreach v c0 c'.
 
-Lemma citer_reach v c0 fuel : forall c acc, mreach v c0 c -> mreach v c0 (fst (citer fuel c acc)).
+Lemma citer_reach v c0 fuel : forall c acc, mreach v c0 c -> mreach v c0 (fst (citer v fuel c acc)).
 Proof.
   induction fuel as [|f IH]; intros c acc Hr; simpl; [exact Hr|].
-  destruct (cstep c) as [[c' l]|] eqn:E; [|exact Hr].
+  destruct (cstep v c) as [[c' l]|] eqn:E; [|exact Hr].
   assert (Hr' : mreach v c0 c') by (apply (mr_step v c0 c 0 c' l); assumption).
   destruct (List.length (cscript c') <? List.length (cscript c)); [exact Hr'|apply IH; exact Hr'].
 Qed.
@@ -34,8 +34,10 @@ Proof.
   intro Hr. unfold step. destruct atomic.
   - destruct ch as [|[|i]].
     + apply citer_reach; exact Hr.
-    + destruct (tstep c) as [[c' l]|] eqn:E; [|exact Hr].
-      apply (mr_step v c0 c 1 c' l); assumption.
+    + destruct (tstep v c) as [[c' l]|] eqn:E; [|exact Hr].
+      assert (Hr' : mreach v c0 c') by (apply (mr_step v c0 c 1 c' l); assumption).
+      destruct (List.length (cscript c') <? List.length (cscript c)); [exact Hr'|].
+      apply citer_reach; exact Hr'.
     + apply piter_reach; exact Hr.
   - destruct (micro v c ch) as [[c' l]|] eqn:E; [|exact Hr].
     apply (mr_step v c0 c ch c' l); assumption.
@@ -109,7 +111,7 @@ Lemma fifo_step v c ch c' l : fifo c -> micro v c ch = Some (c', l) -> fifo c'.
 Proof.
   unfold fifo. intros H E. destruct ch as [|[|i]]; simpl in E.
   - destruct c as [s p scr pr]. destruct s as [b ie ce cn ns ar ou en]. unfold cstep in E. simpl in *.
-    destruct p as [|[]| |[]| | |[]| | |]; simpl in E;
+    destruct p as [|[]| |[]| | | | |[]| | |]; simpl in E;
       repeat match type of E with
              | context [match ?x with _ => _ end] => destruct x eqn:?; simpl in E
              end; try discriminate; inv_some; simpl in *; rewrite ?returned_app; simpl;
@@ -117,8 +119,8 @@ Proof.
       try (subst; rewrite <- app_assoc; simpl; try reflexivity; assumption).
   - destruct c as [s p scr pr]. destruct s as [b ie ce cn ns ar ou en]. unfold tstep in E. simpl in *.
     destruct (cur_timeout _); [|discriminate].
-    destruct p as [|[]| |[]| | |[]| | |]; try discriminate; inv_some; simpl;
-      rewrite returned_app; simpl; rewrite app_nil_r; first [reflexivity|assumption].
+    destruct p as [|[]| |[]| | | | |[]| | |]; try discriminate; try (destruct (recheck_before_raise v)); inv_some; simpl;
+      rewrite ?returned_app; simpl; rewrite ?app_nil_r; first [reflexivity|assumption].
   - apply pstep_inv in E as (p & s' & cp' & p' & En & Eh & ->). simpl.
     destruct c as [s cp scr pr]. destruct s as [b ie ce cn ns ar ou en]. simpl in *.
     unfold phop in Eh. destruct (pscript p) as [|h rest]; [discriminate|].
@@ -141,7 +143,7 @@ Qed.
 Definition pc_ok (p : cpc) (scr : list cop) : Prop :=
   match p, scr with
   | CDone, [] => True
-  | (RTest | RCW _ | RCRead | RIW _ | RClear | RPop), Recv _ :: _ => True
+  | (RTest | RCW _ | RCRead | RIW _ | RClear | RPop | RCkT | RCkD), Recv _ :: _ => True
   | (EW _ | ERead | ESend), Emit :: _ => True
   | _, _ => False
   end.
@@ -171,7 +173,7 @@ Lemma ctl_step v c ch c' l : ctl_inv c -> micro v c ch = Some (c', l) -> ctl_inv
 Proof.
   unfold ctl_inv, blk_ok, outs_ok. intros (Hp & Hb & Ho) E. destruct ch as [|[|i]]; simpl in E.
   - destruct c as [s p scr pr]. destruct s as [b ie ce cn ns ar ou en]. unfold cstep in E. simpl in *.
-    destruct p as [|[]| |[]| | |[]| | |]; simpl in E;
+    destruct p as [|[]| |[]| | | | |[]| | |]; simpl in E;
       destruct scr as [|[t|] [|[t'|] scr']]; simpl in Hp; try contradiction;
       repeat match type of E with
              | context [match ?x with _ => _ end] => destruct x eqn:?; simpl in E
@@ -180,12 +182,12 @@ Proof.
       try (apply not_in_snoc; [assumption|discriminate]).
   - destruct c as [s p scr pr]. destruct s as [b ie ce cn ns ar ou en]. unfold tstep, cur_timeout in E. simpl in *.
     destruct scr as [|[[|]|] [|[t'|] scr']]; try discriminate;
-      destruct p as [|[]| |[]| | |[]| | |]; try discriminate; inv_some; simpl in *;
+      destruct p as [|[]| |[]| | | | |[]| | |]; try discriminate; try (destruct (recheck_before_raise v)); inv_some; simpl in *;
       repeat split; auto; try (apply not_in_snoc; [assumption|discriminate]).
   - apply pstep_inv in E as (p & s' & cp' & p' & En & Eh & ->).
     destruct c as [s cp scr pr]. destruct s as [b ie ce cn ns ar ou en]. simpl in *.
     unfold phop in Eh. destruct (pscript p) as [|h rest]; [discriminate|].
-    destruct cp as [|[]| |[]| | |[]| | |];
+    destruct cp as [|[]| |[]| | | | |[]| | |];
       destruct h; destruct (ppc p) as [|[|n]]; simpl in Eh; inv_some; simpl in *; repeat split; auto;
       try apply snoc_not_nil; try congruence.
 Qed.
@@ -201,7 +203,8 @@ Qed.
 (*     the input flag is set or every buffered item belongs to a producer that has        *)
 (*     appended and not yet signalled.                                                    *)
 (* ------------------------------------------------------------------------------------ *)
-Definition in_window (p : cpc) : bool := match p with RCW _ | RCRead | RIW _ => true | _ => false end.
+Definition in_window (p : cpc) : bool :=
+  match p with RCW _ | RCRead | RIW _ | RCkT | RCkD => true | _ => false end.
 Definition win_inv (c : cfg) : Prop :=
   in_window (pc c) = true ->
   iev (sh c) = true \/ List.length (buf (sh c)) <= count mid_handoff (prods c).
@@ -214,7 +217,7 @@ Lemma mid_final_eq p :
 Proof. reflexivity. Qed.
 
 Lemma notify_window e p : in_window (notify e p) = in_window p.
-Proof. destruct e, p as [|[]| |[]| | |[]| | |]; reflexivity. Qed.
+Proof. destruct e, p as [|[]| |[]| | | | |[]| | |]; reflexivity. Qed.
 
 Arguments notify : simpl never.
 
@@ -222,15 +225,15 @@ Lemma win_step v c ch c' l : win_inv c -> micro v c ch = Some (c', l) -> win_inv
 Proof.
   unfold win_inv. intros H E. destruct ch as [|[|i]]; simpl in E.
   - destruct c as [s p scr pr]. destruct s as [b ie ce cn ns ar ou en]. unfold cstep in E. simpl in *.
-    destruct p as [|[]| |[]| | |[]| | |]; simpl in E;
+    destruct p as [|[]| |[]| | | | |[]| | |]; simpl in E;
       repeat match type of E with
              | context [match ?x with _ => _ end] => destruct x eqn:?; simpl in E
              end; try discriminate; inv_some; simpl in *; auto; try (right; lia);
       try (destruct scr as [|[t|] [|[t'|] scr']]; simpl; intros; discriminate).
   - destruct c as [s p scr pr]. destruct s as [b ie ce cn ns ar ou en]. unfold tstep in E. simpl in *.
     destruct (cur_timeout _); [|discriminate].
-    destruct p as [|[]| |[]| | |[]| | |]; try discriminate; inv_some; simpl in *;
-      destruct scr as [|[t|] [|[t'|] scr']]; simpl; intros; discriminate.
+    destruct p as [|[]| |[]| | | | |[]| | |]; try discriminate; try (destruct (recheck_before_raise v)); inv_some; simpl in *;
+      auto; destruct scr as [|[t|] [|[t'|] scr']]; simpl; intros; discriminate.
   - apply pstep_inv in E as (p & s' & cp' & p' & En & Eh & ->).
     destruct c as [s cp scr pr]. destruct s as [b ie ce cn ns ar ou en]. simpl in *.
     unfold phop in Eh. destruct (pscript p) as [|h rest] eqn:Ep; [discriminate|].
@@ -252,29 +255,67 @@ Qed.
 (* ------------------------------------------------------------------------------------ *)
 (* I4: `connected` is False only after a __disconnect_final has started                  *)
 (* ------------------------------------------------------------------------------------ *)
-Definition end_inv (c : cfg) : Prop := conn (sh c) = false -> ended (sh c) = true.
+Definition end_inv (c : cfg) : Prop :=
+  (conn (sh c) = false -> ended (sh c) = true) /\ (pc c = RCkD -> ended (sh c) = true).
 
 Lemma end_step v c ch c' l : end_inv c -> micro v c ch = Some (c', l) -> end_inv c'.
 Proof.
-  unfold end_inv. intros H E. destruct ch as [|[|i]]; simpl in E.
+  unfold end_inv. intros [H H'] E. destruct ch as [|[|i]]; simpl in E.
   - destruct c as [s p scr pr]. destruct s as [b ie ce cn ns ar ou en]. unfold cstep in E. simpl in *.
-    destruct p as [|[]| |[]| | |[]| | |]; simpl in E;
+    destruct p as [|[]| |[]| | | | |[]| | |]; simpl in E;
       repeat match type of E with
              | context [match ?x with _ => _ end] => destruct x eqn:?; simpl in E
-             end; try discriminate; inv_some; simpl in *; auto.
+             end; try discriminate; inv_some; simpl in *; split; auto; try discriminate;
+      try (destruct scr as [|[t|] [|[t'|] scr']]; simpl; intros; discriminate).
   - destruct c as [s p scr pr]. destruct s as [b ie ce cn ns ar ou en]. unfold tstep in E. simpl in *.
     destruct (cur_timeout _); [|discriminate].
-    destruct p as [|[]| |[]| | |[]| | |]; try discriminate; inv_some; simpl in *; auto.
+    destruct p as [|[]| |[]| | | | |[]| | |]; try discriminate; try (destruct (recheck_before_raise v));
+      inv_some; simpl in *; split; auto; try discriminate;
+      try (destruct scr as [|[t|] [|[t'|] scr']]; simpl; intros; discriminate).
   - apply pstep_inv in E as (p & s' & cp' & p' & En & Eh & ->).
     destruct c as [s cp scr pr]. destruct s as [b ie ce cn ns ar ou en]. simpl in *.
     unfold phop in Eh. destruct (pscript p) as [|h rest]; [discriminate|].
-    destruct h; destruct (ppc p) as [|[|n]]; simpl in Eh; inv_some; simpl in *; auto; discriminate.
+    destruct cp as [|[]| |[]| | | | |[]| | |];
+      destruct h; destruct (ppc p) as [|[|n]]; simpl in Eh; inv_some; simpl in *; split; auto; discriminate.
 Qed.
 
 Lemma end_reach v P C c : mreach v (init P C) c -> end_inv c.
 Proof.
-  apply (invariant_run end_inv v (init P C)); [unfold end_inv, init; simpl; discriminate|].
-  intros; eapply end_step; eauto.
+  apply (invariant_run end_inv v (init P C)).
+  - unfold end_inv, init; simpl. split; [discriminate|]. destruct C as [|[t|] r]; simpl; discriminate.
+  - intros; eapply end_step; eauto.
+Qed.
+
+(* the re-test program counters are only entered by a source that has the re-test *)
+Definition rck_inv (v : variant) (c : cfg) : Prop :=
+  match pc c with RCkT | RCkD => recheck_before_raise v = true | _ => True end.
+
+Lemma rck_step v c ch c' l : rck_inv v c -> micro v c ch = Some (c', l) -> rck_inv v c'.
+Proof.
+  unfold rck_inv. intros H E. destruct ch as [|[|i]]; simpl in E.
+  - destruct c as [s p scr pr]. destruct s as [b ie ce cn ns ar ou en]. unfold cstep in E. simpl in *.
+    destruct p as [|[]| |[]| | | | |[]| | |]; simpl in E;
+      repeat match type of E with
+             | context [match ?x with _ => _ end] => destruct x eqn:?; simpl in E
+             end; try discriminate; inv_some; simpl in *; auto;
+      try (destruct scr as [|[t|] [|[t'|] scr']]; simpl; exact I).
+  - destruct c as [s p scr pr]. destruct s as [b ie ce cn ns ar ou en]. unfold tstep in E. simpl in *.
+    destruct (cur_timeout _); [|discriminate].
+    destruct p as [|[]| |[]| | | | |[]| | |]; try discriminate;
+      try (destruct (recheck_before_raise v) eqn:?); inv_some; simpl in *; auto;
+      try (destruct scr as [|[t|] [|[t'|] scr']]; simpl; exact I).
+  - apply pstep_inv in E as (p & s' & cp' & p' & En & Eh & ->).
+    destruct c as [s cp scr pr]. destruct s as [b ie ce cn ns ar ou en]. simpl in *.
+    unfold phop in Eh. destruct (pscript p) as [|h rest]; [discriminate|].
+    destruct cp as [|[]| |[]| | | | |[]| | |];
+      destruct h; destruct (ppc p) as [|[|n]]; simpl in Eh; inv_some; simpl in *; auto.
+Qed.
+
+Lemma rck_reach v P C c : mreach v (init P C) c -> rck_inv v c.
+Proof.
+  apply (invariant_run (rck_inv v) v (init P C)).
+  - unfold rck_inv, init; simpl. destruct C as [|[t|] r]; simpl; exact I.
+  - intros; eapply rck_step; eauto.
 Qed.
 
 (* ------------------------------------------------------------------------------------ *)
@@ -289,24 +330,24 @@ Definition fin_inv (c : cfg) : Prop :=
   | _ => True
   end.
 
-Lemma fin_step c ch c' l : fin_inv c -> micro repaired c ch = Some (c', l) -> fin_inv c'.
+Lemma fin_step v c ch c' l : final_wakes_input v = true -> fin_inv c -> micro v c ch = Some (c', l) -> fin_inv c'.
 Proof.
-  unfold fin_inv. intros H E. destruct ch as [|[|i]]; simpl in E.
+  unfold fin_inv. intros Hv H E. destruct ch as [|[|i]]; simpl in E.
   - destruct c as [s p scr pr]. destruct s as [b ie ce cn ns ar ou en]. unfold cstep in E. simpl in *.
-    destruct p as [|[]| |[]| | |[]| | |]; simpl in E;
+    destruct p as [|[]| |[]| | | | |[]| | |]; simpl in E;
       repeat match type of E with
              | context [match ?x with _ => _ end] => destruct x eqn:?; simpl in E
              end; try discriminate; inv_some; simpl in *; auto; try discriminate;
       try (destruct scr as [|[t|] [|[t'|] scr']]; simpl; exact I).
   - destruct c as [s p scr pr]. destruct s as [b ie ce cn ns ar ou en]. unfold tstep in E. simpl in *.
     destruct (cur_timeout _); [|discriminate].
-    destruct p as [|[]| |[]| | |[]| | |]; try discriminate; inv_some; simpl in *;
-      destruct scr as [|[t|] [|[t'|] scr']]; simpl; exact I.
+    destruct p as [|[]| |[]| | | | |[]| | |]; try discriminate; try (destruct (recheck_before_raise v)); inv_some; simpl in *;
+      try exact I; destruct scr as [|[t|] [|[t'|] scr']]; simpl; exact I.
   - apply pstep_inv in E as (p & s' & cp' & p' & En & Eh & ->).
     destruct c as [s cp scr pr]. destruct s as [b ie ce cn ns ar ou en]. simpl in *.
     unfold phop in Eh. destruct (pscript p) as [|h rest] eqn:Ep; [discriminate|].
-    destruct cp as [|[]| |[]| | |[]| | |];
-      destruct h; destruct (ppc p) as [|[|n]] eqn:Epc; simpl in Eh; inv_some; simpl in *; auto;
+    destruct cp as [|[]| |[]| | | | |[]| | |];
+      destruct h; destruct (ppc p) as [|[|n]] eqn:Epc; simpl in Eh; rewrite ?Hv in Eh; inv_some; simpl in *; auto;
       try discriminate;
       match goal with |- context [upd pr i ?q] => pose proof (count_upd mid_final pr i p q En) as Hc end;
       rewrite !mid_final_eq in Hc; simpl in Hc; rewrite ?Ep, ?Epc in Hc; simpl in Hc;
@@ -315,9 +356,9 @@ Proof.
       destruct (H Hcn) as [Hi|Hl]; auto; right; lia.
 Qed.
 
-Lemma fin_reach P C c : mreach repaired (init P C) c -> fin_inv c.
+Lemma fin_reach v P C c : final_wakes_input v = true -> mreach v (init P C) c -> fin_inv c.
 Proof.
-  apply (invariant_run fin_inv repaired (init P C)).
+  intro Hv. apply (invariant_run fin_inv v (init P C)).
   - unfold fin_inv, init; simpl. destruct C as [|[t|] r]; simpl; exact I.
   - intros; eapply fin_step; eauto.
 Qed.
